@@ -13,7 +13,7 @@ namespace ys {
 constexpr int MAXC = 32;    // class tokens K<0> .. K<31>
 constexpr int MAXALIAS = 3; // ids per class
 constexpr int MAXBODY = 16; // pooled definition bodies per method slot
-constexpr int MAXVP = 8;    // harness-held virtual_ptr slots per policy
+constexpr int MAXVP = 16;   // harness-held virtual_ptr slots per policy
 constexpr int MAXREC = 512; // records per plan
 constexpr int MAXBASES = 48;
 constexpr int NSLOTS = 20;  // method pool size
